@@ -1,6 +1,6 @@
 #!/bin/bash
 # re-check that every seeded change under seeded/ is still detected by the check(s) that caught it.
-# usage: seeded_regress.sh <scratch copy of the repository>   (never /repo)
+# usage: seeded_regress.sh <scratch copy of the repository> [regex on the change names]   (never /repo)
 here=$(cd "$(dirname "$0")" && pwd)
 repo=$1
 [ -d "$repo/depccg" ] && [ "$repo" != "/repo" ] || { echo "give a scratch copy of the repository"; exit 9; }
@@ -8,6 +8,7 @@ export DEPSIM_REPO=$repo
 ok=0; lost=0
 for d in $here/seeded/*/; do
   name=$(basename $d)
+  if [ -n "$2" ] && ! echo "$name" | grep -Eq "$2"; then continue; fi
   if grep -q '"rejected": true' $d/meta.json; then echo "SKIPPED  $name (judged not to break the property, see meta.json)"; continue; fi
   checks=$(/venv/bin/python -c "
 import json,re,sys
